@@ -209,7 +209,15 @@ theorem markSplit_spec {cfg : Cfg} {st : Bool} : ∀ (l : List Nat) {s : Mem}, C
           rw [hbl] at hb'; cases hb'
           exact ⟨_, List.getElem?_set_self (lt_of_getElem? hbl), rfl, rfl⟩
         · exact ⟨bl', by simp [List.getElem?_set_ne hbb, hb'], rfl, rfl⟩
-      exact ⟨e, hc.step e (fun _ _ h => Or.inl h) (fun _ h => Or.inl h)⟩
+      refine ⟨e, hc.step e (fun _ _ h => Or.inl h) (fun _ h => Or.inl h) (fun k bl1 hk1 hf1 => ?_)⟩
+      simp only at hk1
+      by_cases hkb : blk = k
+      · subst hkb
+        rw [List.getElem?_set_self (lt_of_getElem? hbl)] at hk1
+        cases hk1
+        exact hc.frees blk bl hbl hf1
+      · rw [List.getElem?_set_ne hkb] at hk1
+        exact hc.frees k bl1 hk1 hf1
     have h1 : Ext s (match s.nodes[i]? with
         | some nd =>
           if nd.unmanaged ∧ nd.origin = none ∧ nd.cap > 0 then
@@ -348,7 +356,9 @@ theorem AllSteps.of_forall {cfg : Cfg} {P : Ledger → Op → Prop} : ∀ (ops :
     · exact AllSteps.of_forall ops _ (fun s o ho => h s o (List.mem_cons_of_mem _ ho))
 
 theorem typed_init (cfg : Cfg) (st : Bool) : Typed cfg st {} :=
-  ⟨⟨fun i nd h => by simp at h, fun e h => by cases h⟩, fun p h => by cases h⟩
+  ⟨⟨fun i nd h => (by simp at h), fun e h => (by cases h), fun k bl h => (by
+      have : ({} : Ledger).mem.blocks = [] := rfl
+      rw [this] at h; cases h)⟩, fun p h => (by cases h)⟩
 
 theorem run_typed {cfg : Cfg} {st : Bool} : ∀ (ops : List Op) {s : Ledger}, Typed cfg st s →
     (st = true → AllSteps cfg BookOK s ops) → Typed cfg st (run cfg s ops)
